@@ -11,17 +11,21 @@ Ok(o) == o[1] = "ok"
 Joined(g, a, b) == a # b /\ \E j \in EIdx(g) : {Src(g, j), Tgt(g, j)} = {a, b}     \* a non-loop edge, direction ignored
 
 \* m is a valid matching and every accessor agrees with `mate`
-MatchingOK(g, m) ==
+MatchingOKp(g, m, withPerfect) ==
     LET mate(v) == m.mate[v + 1]
         pairs == {{v, mate(v)} : v \in {x \in Nodes(g) : mate(x) # -1}}
     IN
     /\ \A v \in Nodes(g) : mate(v) # -1 => /\ mate(v) \in Nodes(g) /\ mate(mate(v)) = v /\ Joined(g, v, mate(v))
     /\ m.len = Cardinality(pairs) /\ m.is_empty = (pairs = {})
-    /\ m.perfect = (2 * Cardinality(pairs) = g.n)
+    /\ (withPerfect => m.perfect = (2 * Cardinality(pairs) = g.n))
     /\ {{m.edges[j][1], m.edges[j][2]} : j \in DOMAIN m.edges} = pairs /\ Len(m.edges) = Cardinality(pairs)
     /\ SeqRange(m.nodes) = UNION pairs /\ Len(m.nodes) = Cardinality(UNION pairs)
     /\ \A v \in Nodes(g) : m.cn[v + 1] = (mate(v) # -1)
     /\ \A a, b \in Nodes(g) : m.ce[a + 1][b + 1] = (mate(a) = b)
+
+MatchingOK(g, m) == MatchingOKp(g, m, TRUE)
+\* the node-induced subgraph on the even nodes (what NodeFiltered by parity presents); is_perfect is not offered there
+NFeven(g) == [g EXCEPT !.E = SelectSeq(g.E, LAMBDA e : e[1] % 2 = 0 /\ e[2] % 2 = 0)]
 
 \* size of a largest matching: max over all sets of pairwise disjoint joinable pairs
 AllPairs(g) == {p \in SUBSET Nodes(g) : Cardinality(p) = 2 /\ \E a, b \in p : a # b /\ Joined(g, a, b)}
@@ -55,6 +59,10 @@ Bad(r) ==
     \cup chk("maxm", LAMBDA v : MatchingOK(g, v))
     \* reported separately: a valid matching that is not of maximum size
     \cup (IF Has(r, "maxm") /\ Ok(r.maxm) /\ MatchingOK(g, r.maxm[2]) /\ r.maxm[2].len # MaxMatchingSize(g) THEN {"maxm_size"} ELSE {})
+    \cup chk("greedy_nf", LAMBDA v : MatchingOKp(NFeven(g), v, FALSE))
+    \cup chk("maxm_nf", LAMBDA v : MatchingOKp(NFeven(g), v, FALSE))
+    \cup (IF Has(r, "maxm_nf") /\ Ok(r.maxm_nf) /\ MatchingOKp(NFeven(g), r.maxm_nf[2], FALSE) /\ r.maxm_nf[2].len # MaxMatchingSize(NFeven(g))
+          THEN {"maxm_size"} ELSE {})
     \cup chk("flow", LAMBDA v : \A j \in DOMAIN v : FlowOK(g, v[j]))
 
 Init == i \in 1 .. Len(Recs) /\ verdict = "pending"
